@@ -10,7 +10,8 @@ LEVEL = "exploration"
 QUICK_RUNS = 3000
 THOROUGH_SECONDS = 600
 RULE_TEXT = ("A collecting step (num_workers 1..4) with expected lists [A,B], [A,A,B], [A,B,C], one or two buffers, optional "
-             "failing collector with retry; producers emit 1-4 rounds plus surplus events at tape-chosen instants so that "
+             "failing collector with retry; in a third of the runs all events of one type compare equal (==), identity being the "
+             "harness's uid only; producers emit 1-4 rounds plus surplus events at tape-chosen instants so that "
              "collector invocations overlap; histories of <=8 logical collect calls are checked for serializability against a "
              "sequential buffer model (all orders consistent with real-time precedence are tried). Non-trivial: >=2 "
              "overlapping collector invocations and >=1 returned set; distinct = abstract trace shape.")
@@ -18,7 +19,8 @@ COMPONENTS = {"real": ["workflows.* engine (collect_events, AddCollectedEvent/De
               "stub": ["llama_index_instrumentation"], "sim": ["loop, clock"]}
 ASSUMPTIONS = ["surplus events (type no longer missing) are dropped by design and are not counted as loss",
                "residual buffer is read from the live control-loop state, not through ctx.to_dict()"]
-EXPECTED_PROBES = ["overlapping-collectors", "set-returned", "surplus-dropped", "rerun-on-stale-snapshot"]
+EXPECTED_PROBES = ["overlapping-collectors", "set-returned", "surplus-dropped", "rerun-on-stale-snapshot",
+                   "value-equal-events-collected"]
 LEVEL_TEXT = ("Seeded exploration; direct rules (shape, reuse, phantom) plus a linearizability-style search over the recorded "
               "history of collect calls against a sequential reference buffer.")
 LEVEL_NOTE = "Trusted: simulator loop, body logging of collect calls and results, sequential buffer model (30 lines)."
@@ -29,6 +31,10 @@ EXPECTED = [["E0", "E1"], ["E0", "E0", "E1"], ["E0", "E1", "E2"], ["E1", "E0"]]
 
 def gen(tape, cfg):
     exp = tape.choice(EXPECTED, "expected")
+    if tape.chance(35, 100, "value-equal-events"):
+        # events whose payloads compare equal (identity is the harness's uid only): an engine that recognises "the same
+        # event" by == confuses two different events of one type
+        exp = [t + "v" for t in exp]
     types = sorted(set(exp))
     two_buf = tape.chance(25, 100, "two-buffers")
     rounds = tape.rng_int(1, 3, "rounds")
@@ -76,7 +82,7 @@ def gen(tape, cfg):
         {"name": "zfin", "accepts": ["Fin"], "workers": 1, "sync": False, "retry": None, "role": "step",
          "scripts": {"Fin": [("ret", "stop")]}, "returns": [], "stop": True},
     ]
-    return {"steps": steps, "types": types, "timeout": None, "driver": "finish", "disable_validation": False, "expected": exp, "wait_after": wait_after}
+    return {"steps": steps, "types": types, "veq": exp[0].endswith("v"), "timeout": None, "driver": "finish", "disable_validation": False, "expected": exp, "wait_after": wait_after}
 
 
 def setup(world, spec):
@@ -150,6 +156,8 @@ def check(world, spec, outcome) -> None:
     for g, us in returned_in.items():
         if len(us) > 1:
             world.violate("C09.reused", f"event uid={g} appears in the sets returned to calls {us}", calls[us[1]]["first"])
+    if spec.get("veq") and returned_in:
+        world.probe("value-equal-events-collected")
     if max_open >= 2:
         world.probe("overlapping-collectors")
     if any(c["n"] > 1 and not c["failed"] for c in calls.values()):
